@@ -676,12 +676,29 @@ func c11AuditVals(fn *ssa.Function, au c11Audit, field string) (vals []ssa.Value
 			literal = false
 			continue
 		}
-		fs := eng.StructLitField(e.Call.Args[2], field)
+		// the LogInput itself may be a parameter of the closure / helper: find the literal in the caller
+		in, fr := e.Call.Args[2], e.Fr
+		for d := 0; d < 4; d++ {
+			p, ok := in.(*ssa.Parameter)
+			if !ok || fr == nil {
+				break
+			}
+			arg := nfArgFor(fr.call, p)
+			if arg == nil {
+				break
+			}
+			in, fr = arg, fr.up
+		}
+		fs := eng.StructLitField(in, field)
 		if len(fs) == 0 {
-			literal = false
+			if _, isParam := in.(*ssa.Parameter); isParam {
+				traced = false // handed in from a caller the rule cannot see
+			} else {
+				literal = false
+			}
 		}
 		for _, v := range fs {
-			back(v, e.Fr, 0)
+			back(v, fr, 0)
 		}
 	}
 	return vals, literal, traced
